@@ -300,7 +300,11 @@ func (m *RelayMon) AfterTx(s *Sim, r *TxRes) {
 		if rs.Badge != nil {
 			m.BadgeCredits++
 			b := rs.Badge
-			bk := hex.EncodeToString(b.ProjectSig) + "|" + rs.Provider
+			canonProv := rs.Provider
+			if pa, err := sdk.AccAddressFromBech32(rs.Provider); err == nil {
+				canonProv = pa.String() // the allocation is per provider (an address), however the relay spells it
+			}
+			bk := hex.EncodeToString(b.ProjectSig) + "|" + canonProv
 			if b.Address != ri.relaySig || b.Epoch != uint64(rs.Epoch) || b.LavaChainId != ctx.BlockHeader().ChainID {
 				m.v("C18", "badge-honoured-for-other-traits", "badge honoured although address/epoch/lava chain differ", fmt.Sprintf("badge{addr=%s epoch=%d chain=%s} relay{signer=%s epoch=%d} chain=%s tx %s", b.Address, b.Epoch, b.LavaChainId, ri.relaySig, rs.Epoch, ctx.BlockHeader().ChainID, r.Desc), s, r.Step)
 			}
